@@ -24,7 +24,7 @@ REQ = {
                        "nurbs_to_bspline_on_weights_le_1", "getter_list_edited_in_place_and_written_back", "setter_given_tuples",
                        "helpers_given_tuples", "set_through_ctrlpts2d", "control_polygon_resized_through_ctrlpts",
                        "conversion_of_unnormalised_shape", "grid_bumps", "deep_copy_edited_in_place_and_written_back",
-                       "caller_reused_its_weight_list_after_the_setter"]},
+                       "caller_reused_its_weight_list_after_the_setter", "weight_within_1e-7_of_one"]},
     "C12": {"faults": ["memo_evict", "rejected_edit:bad_delta", "rejected_edit:bad_knots", "rejected_edit:bad_point", "rejected_edit:bad_insert"],
             "probes": ["read_after_edit_of_warm_object", "rejected_edit_while_cache_warm", "copy_created", "element_edit_while_container_cache_warm", "container_deepcopy_checked", "container_tessellate_on_simulated_pool",
                        "container_read_after_edit_of_warm_container", "caller_reused_its_argument_list_after_the_setter",
@@ -42,7 +42,7 @@ REQ = {
                        "container_partially_traversed_before_export"]},
     "C16": {"faults": ["memo_evict", "rejected_input:nonsquare", "rejected_input:singular", "rejected_input:singular_zero_column", "rejected_input:needs_pivot", "rejected_input:rhs_mismatch", "rejected_input:mutate_result"],
             "probes": ["identity_consumer_after_swap_same_size", "row_swap_performed", "row_swap_needed", "determinant_of_small_magnitude_matrix",
-                       "caller_passes_the_same_matrix_object_again"]},
+                       "caller_passes_the_same_matrix_object_again", "returned_pivot_matrix_edited_and_passed_on"]},
     "C17": {"faults": ["worker_raises", "slow_worker", "late_result"],
             "probes": ["config_dim:num_procs", "config_dim:span", "config_dim:evaluator", "config_dim:normalize", "config_dim:cache_size",
                        "pooled_call_with_ge_2_chunks", "chunks_completed_out_of_order", "baseline_reimported_with_cache_unset"],
